@@ -283,7 +283,7 @@ func TestVerifC12Drbg(t *testing.T) {
 
 func TestVerifC12Csrand(t *testing.T) {
 	c := ev.For("C12")
-	c.Rule("csrand: generated (min, width) with width 1..4 (both ends must be hit within 300 draws; miss probability < 1e-30), larger widths up to 2^31, negative bounds; Intn(n) in [0,n); Float64 in [0,1); Bytes fills every byte position with a non-constant value over repeated calls")
+	c.Rule("csrand: generated (min, width) with width 1..4 (both ends must be hit within 300 draws; miss probability < 1e-30), larger widths up to 2^31, negative bounds; Intn(n) in [0,n); Float64 in [0,1); the same three with the CSPRNG's next 8 bytes scripted to the extremes of the 63-bit value and to values just below 2^63 that round up in float64; Bytes fills every byte position with a non-constant value over repeated calls")
 	rapid.Check(t, func(rt *rapid.T) {
 		min := rapid.IntRange(-1000000, 1000000).Draw(rt, "min")
 		var width int
@@ -315,6 +315,42 @@ func TestVerifC12Csrand(t *testing.T) {
 				rt.Fatalf("VIOL[c12-float64]: Float64() = %v", f)
 			}
 		}
+		// scripted draws: the 8 bytes the CSPRNG hands to the source are chosen by
+		// the harness (extremes of the 63-bit value, values just below 2^63 that
+		// round up when converted to float64); the documented ranges hold for
+		// every value of the underlying generator, not only for likely ones
+		ext := [][8]byte{
+			{0xff, 0xff, 0xff, 0xff, 0xff, 0xff, 0xff, 0xff},
+			{0x7f, 0xff, 0xff, 0xff, 0xff, 0xff, 0xff, 0xff},
+			{0x7f, 0xff, 0xff, 0xff, 0xff, 0xff, 0xfe, 0x00},
+			{0x7f, 0xff, 0xff, 0xff, 0xff, 0xff, 0xfd, 0xff},
+			{0x7f, 0xff, 0xff, 0xff, 0xff, 0xff, 0xfc, 0x00},
+			{0x7f, 0xff, 0xff, 0xff, 0x00, 0x00, 0x00, 0x00},
+			{0x80, 0x00, 0x00, 0x00, 0x00, 0x00, 0x00, 0x00},
+			{0x00, 0x00, 0x00, 0x00, 0x00, 0x00, 0x00, 0x00},
+			{0x00, 0x00, 0x00, 0x00, 0xff, 0xff, 0xff, 0xff},
+		}
+		e := ext[rapid.IntRange(0, len(ext)-1).Draw(rt, "scripted")]
+		if rapid.Bool().Draw(rt, "scriptedLow") {
+			e[7] = byte(rapid.IntRange(0, 255).Draw(rt, "scriptedLowByte"))
+			e[6] |= byte(rapid.IntRange(0, 3).Draw(rt, "scriptedBits"))
+		}
+		detrand.Force8(e)
+		if f := csrand.Float64(); f < 0 || f >= 1 {
+			detrand.ClearForced()
+			rt.Fatalf("VIOL[c12-float64]: Float64() = %v when the generator yields %x (documented range [0.0,1.0))", f, e)
+		}
+		detrand.Force8(e)
+		if v := csrand.Intn(n); v < 0 || v >= n {
+			detrand.ClearForced()
+			rt.Fatalf("VIOL[c12-intn]: Intn(%d) = %d when the generator yields %x", n, v, e)
+		}
+		detrand.Force8(e)
+		if v := csrand.IntRange(min, max); v < min || v > max {
+			detrand.ClearForced()
+			rt.Fatalf("VIOL[c12-intrange]: IntRange(%d,%d) = %d when the generator yields %x", min, max, v, e)
+		}
+		detrand.ClearForced()
 		l := rapid.IntRange(1, 64).Draw(rt, "bytesLen")
 		varies := make([]bool, l)
 		first := make([]byte, l)
